@@ -16,6 +16,7 @@ import (
 	"fmt"
 	"net"
 	"os"
+	"runtime"
 	"sync"
 	"sync/atomic"
 	"testing"
@@ -45,6 +46,9 @@ type C18Case struct {
 	// Duplex (client side): the raw reads run in a goroutine of their own and are already waiting when the main
 	// goroutine writes Back; the peer sends its tail only after it has received Back (one reader, one writer)
 	Duplex bool `json:"duplex,omitempty"`
+	// DropConn (client side): after Upgrade the caller keeps only the object Upgrade returned and lets go of the
+	// *Connection; a garbage collection later that object must still deliver the stream
+	DropConn bool `json:"drop_conn,omitempty"`
 }
 
 // checkReads runs the cursor model over the results; the last result is the drain.
@@ -245,7 +249,11 @@ func execC18Client(c C18Case, bound time.Duration) (bool, error) {
 		a, b := net.Pipe()
 		cli, srv = varlink.VerifNewConnection(sockLikePipe{a}), b
 	}
-	defer cli.Close()
+	defer func() {
+		if cli != nil {
+			cli.Close()
+		}
+	}()
 	reply := []byte(`{"parameters":{"upgraded":true}}`)
 	stream := append(append(append([]byte(nil), reply...), 0), c.Tail...)
 	gotBack := make(chan []byte, 1)
@@ -324,6 +332,13 @@ func execC18Client(c C18Case, bound time.Duration) (bool, error) {
 	if d := JSONDiff([]byte(`{"upgraded":true}`), out); d != "" {
 		return false, fmt.Errorf("client side: upgrade reply parameters: %s", d)
 	}
+	if c.DropConn {
+		cli, recv = nil, nil
+		runtime.GC()
+		time.Sleep(2 * time.Millisecond)
+		runtime.GC()
+		time.Sleep(time.Millisecond)
+	}
 	if c.Hangup {
 		// write until it fails for good (the peer has closed or is about to); a write error concerns the write direction only
 		chunk := bytes.Repeat([]byte("u"), 64<<10)
@@ -393,6 +408,9 @@ func execC18Client(c C18Case, bound time.Duration) (bool, error) {
 	}
 	d, mixed := checkReads(c.Tail, c.Ops, res)
 	if d != "" {
+		if c.DropConn {
+			return mixed, fmt.Errorf("client side (only the object returned by Upgrade is still referenced, two garbage collections later): %s", d)
+		}
 		if c.Duplex {
 			return mixed, fmt.Errorf("client side (reads waiting in one goroutine while another wrote %d bytes): %s", len(c.Back), d)
 		}
@@ -491,6 +509,9 @@ func genC18(t *rapid.T) C18Case {
 	if c.Side == "client" && c.Transport == "unix" && rapid.IntRange(0, 2).Draw(t, "hangup") == 0 {
 		c.Hangup = true
 	}
+	if c.Side == "client" && c.Transport == "unix" && !c.Hangup && rapid.IntRange(0, 3).Draw(t, "dropconn") == 0 {
+		c.DropConn = true
+	}
 	if c.Side == "client" && !c.Hangup && len(c.Back) > 0 && len(c.Tail) > 0 && rapid.IntRange(0, 1).Draw(t, "duplex") == 0 {
 		c.Duplex = true
 	}
@@ -573,6 +594,9 @@ func TestC18Enum(t *testing.T) {
 		for _, s := range seqs {
 			cases = append(cases, C18Case{Side: "client", Transport: tr, Tail: tail, Cuts: []int{9}, Ops: s, Back: Blob("raw-back\x00x"), Duplex: true})
 		}
+	}
+	for _, s := range seqs {
+		cases = append(cases, C18Case{Side: "client", Transport: "unix", Tail: tail, Cuts: []int{9}, Ops: s, DropConn: true})
 	}
 	long := append(append([]byte(nil), tail...), bytes.Repeat([]byte("0123456789abcdef"), 1024)...) // beyond the read buffer: part of it is still in the kernel
 	for _, cuts := range [][]int{nil, {4096}} {
